@@ -33,7 +33,7 @@ void h_time_get(void)
 	iv_time_get(&t);
 	__CPROVER_assert(clock_source >= old, "[C15] a clock source that failed is not tried again (one-way flag)");
 	__CPROVER_assert(IMPLIES(old < 2 && verif_in.mono_ok, g_mono == 1 && g_real == 0 && g_tod == 0 && t.tv_sec == verif_in.sec && t.tv_nsec == verif_in.nsec), "[C04,C15] the monotonic clock is preferred");
-	__CPROVER_assert(IMPLIES((old >= 2 || !verif_in.mono_ok) && old < 3 && verif_in.real_ok, g_real == 1 && g_tod == 0), "[C15] else the realtime clock");
+	__CPROVER_assert(IMPLIES((old >= 2 || !verif_in.mono_ok) && old < 3 && verif_in.real_ok, g_real == 1 && g_tod == 0), "[C15,C04,C05] else the realtime clock (a refused clock source must not leave the reading unset: every timer decision hangs on it)");
 	__CPROVER_assert(IMPLIES((old >= 2 || !verif_in.mono_ok) && (old >= 3 || !verif_in.real_ok), g_tod == 1 && t.tv_sec == verif_in.sec && t.tv_nsec == 1000L * verif_in.usec), "[C15] else gettimeofday, converted to nanoseconds");
 	__CPROVER_assert(t.tv_nsec >= 0 && t.tv_nsec < 1000000000, "[C04] the reading is a normalised timespec");
 	CANARY();
